@@ -517,3 +517,550 @@ Proof.
   replace (length pre + 4 - 4)%nat with (length pre) by lia.
   rewrite skipn_length_app. reflexivity.
 Qed.
+
+(* ------------------------------------------------------------------------- *)
+(* 6. The model's decoder is the reference decoder                           *)
+(* ------------------------------------------------------------------------- *)
+
+(* what base64_decode does once dlen, the loop result and the tail are known *)
+Definition finish (D : Z) (o : list Z) (hh : Z) (tl : option (list Z)) : dres :=
+  if D =? 0 then DReject else
+  if (64 <? hh) || negb (zlen o =? D - D mod 3) then DReject else
+  match tl with
+  | None => DReject
+  | Some t =>
+      let written := o ++ t ++ [0] in
+      if D + 1 <? zlen written then DOOB
+      else DOk (map Some written ++ repeat None (Z.to_nat (D + 1 - zlen written))) D
+  end.
+
+Lemma decode_finish : forall s, zlen s mod 4 = 0 ->
+  decode s = finish (decoded_len s) (fst (dloop s [] 0)) (snd (dloop s [] 0))
+                    (dtail s (decoded_len s)).
+Proof.
+  intros s H. unfold decode, finish. rewrite H. change (0 =? 0) with true. cbn [negb].
+  destruct (dloop s [] 0) as [o hh]. reflexivity.
+Qed.
+
+Lemma finish_ok : forall D o hh t,
+  D <> 0 -> hh <= 64 -> zlen o = D - D mod 3 -> zlen t = D mod 3 ->
+  finish D o hh (Some t) = DOk (map Some ((o ++ t) ++ [0])) (zlen (o ++ t)).
+Proof.
+  intros D o hh t HD Hh Ho Ht. unfold finish. cbv zeta.
+  destruct (D =? 0) eqn:E1; [lia|].
+  destruct (64 <? hh) eqn:E2; [lia|].
+  destruct (zlen o =? D - D mod 3) eqn:E3; [|lia]. cbn [orb negb].
+  assert (L : zlen (o ++ t ++ [0]) = D + 1).
+  { unfold zlen in *. rewrite !app_length. cbn [length]. lia. }
+  assert (L' : zlen (o ++ t) = D).
+  { unfold zlen in *. rewrite !app_length. lia. }
+  rewrite L, L'. destruct (D + 1 <? D + 1) eqn:E4; [lia|].
+  replace (D + 1 - (D + 1)) with 0 by lia. change (Z.to_nat 0) with 0%nat.
+  cbn [repeat]. rewrite app_nil_r. rewrite app_assoc. reflexivity.
+Qed.
+
+Lemma finish_rej : forall D o hh tl,
+  D = 0 \/ zlen o <> D - D mod 3 \/ tl = None -> finish D o hh tl = DReject.
+Proof.
+  intros D o hh tl H. unfold finish.
+  destruct (D =? 0) eqn:E1; [reflexivity|].
+  destruct (64 <? hh) eqn:E2; [reflexivity|].
+  destruct (zlen o =? D - D mod 3) eqn:E3; [|reflexivity]. cbn [orb negb].
+  destruct H as [H | [H | H]]; [lia | lia | rewrite H; reflexivity].
+Qed.
+
+Lemma dtail_q : forall c0 c1 c2 c3 D,
+  dtail [c0; c1; c2; c3] D =
+  if D mod 3 =? 0 then Some []
+  else if D mod 3 =? 1 then
+    if al c0 && al c1 && (inv c2 =? 64) && (inv c3 =? 64)
+    then Some [(inv c0 * 4 + inv c1 / 16) mod 256] else None
+  else
+    if al c0 && al c1 && al c2 && (inv c3 =? 64)
+    then Some [(inv c0 * 1024 + inv c1 * 16 + inv c2 / 4) / 256 mod 256;
+               (inv c0 * 1024 + inv c1 * 16 + inv c2 / 4) mod 256] else None.
+Proof.
+  intros. unfold dtail.
+  change (skipn (length [c0; c1; c2; c3] - 4) [c0; c1; c2; c3]) with [c0; c1; c2; c3].
+  cbv beta iota zeta. rewrite !leb64. unfold al.
+  destruct (D mod 3 =? 0); [reflexivity|].
+  destruct (D mod 3 =? 1);
+    destruct (inv c0 <? 64), (inv c1 <? 64), (inv c2 <? 64), (inv c2 =? 64), (inv c3 =? 64);
+    reflexivity.
+Qed.
+
+Ltac iftac :=
+  repeat match goal with
+         | |- context [if ?b then _ else _] =>
+             let E := fresh "E" in destruct b eqn:E; try (exfalso; lia)
+         end.
+
+Lemma last_quartet : forall (k : nat) out h c0 c1 c2 c3,
+  zlen out = 3 * Z.of_nat k -> h <= 64 ->
+  forall D, D = match nudge_of c1 c2 c3 with Some n => 3 * (Z.of_nat k + 1) - n | None => 0 end ->
+  finish D (fst (dloop [c0; c1; c2; c3] out h)) (snd (dloop [c0; c1; c2; c3] out h))
+         (dtail [c0; c1; c2; c3] D) =
+  match option_map (app out) (qlast c0 c1 c2 c3) with
+  | Some v => DOk (map Some (v ++ [0])) (zlen v)
+  | None => DReject
+  end.
+Proof.
+  intros k out h c0 c1 c2 c3 Lo Hh D HD.
+  destruct (al4 c0 c1 c2 c3) eqn:H4.
+  - rewrite (dloop_go _ _ _ _ _ _ _ H4). cbn [dloop fst snd].
+    pose proof (al4_last _ _ _ _ H4) as H3.
+    unfold al4 in H4.
+    apply andb_prop in H4; destruct H4 as [H4 A3].
+    apply andb_prop in H4; destruct H4 as [H4 A2].
+    apply andb_prop in H4; destruct H4 as [A0 A1].
+    unfold nudge_of in HD. unfold qlast. rewrite A0, A1, A2, A3 in *. cbn [andb option_map].
+    rewrite dtail_q. destruct (D mod 3 =? 0) eqn:E; [|lia].
+    rewrite finish_ok.
+    + rewrite app_nil_r. reflexivity.
+    + lia.
+    + lia.
+    + unfold zlen in *. rewrite app_length. cbn [dec3 length]. lia.
+    + unfold zlen. cbn [length]. lia.
+  - rewrite (dloop_stop _ _ _ _ _ _ _ H4). cbn [fst snd].
+    rewrite dtail_q. unfold al4 in H4. unfold nudge_of in HD. unfold qlast, stoph.
+    destruct (al c0) eqn:A0, (al c1) eqn:A1, (al c2) eqn:A2, (al c3) eqn:A3;
+      try discriminate H4; cbn [andb option_map] in *;
+      destruct (inv c3 =? 64) eqn:P3; destruct (inv c2 =? 64) eqn:P2;
+      cbn [andb option_map] in *; unfold al in *.
+    all: try (exfalso; lia).
+    all: try (apply finish_rej; first [ left; lia | right; left; lia | right; right; iftac; reflexivity ]).
+    all: iftac.
+    all: apply finish_ok; [lia | lia | lia | unfold zlen; cbn [length]; lia].
+Qed.
+
+Lemma zmod4 : forall n : nat, Z.of_nat n mod 4 = Z.of_nat (n mod 4).
+Proof. intro n. rewrite (Nat2Z.inj_mod n 4). reflexivity. Qed.
+
+Theorem decode_ref : forall s,
+  decode s = match refdec s with
+             | Some v => DOk (map Some (v ++ [0])) (zlen v)
+             | None => DReject
+             end.
+Proof.
+  intro s.
+  destruct (quartet_decomp s) as [-> | [Hbad | (k & pre & c0 & c1 & c2 & c3 & -> & H)]].
+  - reflexivity.
+  - rewrite (refdec_badlen s Hbad). unfold decode.
+    destruct (zlen s mod 4 =? 0) eqn:E; [|reflexivity]. exfalso. unfold zlen in E. rewrite zmod4 in E. lia.
+  - rewrite (refdec_app k pre c0 c1 c2 c3 H).
+    rewrite decode_finish by (rewrite (zlen_app4 k pre c0 c1 c2 c3 H); lia).
+    rewrite (decoded_len_app k pre c0 c1 c2 c3 H), dtail_app.
+    destruct (forallb al pre) eqn:Hal.
+    + destruct (dloop_pre_al k pre H Hal [c0; c1; c2; c3] [] 0) as (h' & Hh' & E); [lia|].
+      rewrite E. cbn [app].
+      apply (last_quartet k (decq pre) h' c0 c1 c2 c3 (decq_len k pre H) Hh'). reflexivity.
+    + destruct (dloop_pre_nal k pre H Hal [c0; c1; c2; c3] [] 0) as (out' & h' & E & L).
+      rewrite E. cbn [app fst snd]. apply finish_rej.
+      destruct (nudge_of c1 c2 c3) as [n|] eqn:N; [|left; reflexivity].
+      apply nudge_range in N. right. left. lia.
+Qed.
+
+(* ------------------------------------------------------------------------- *)
+(* 7. Memory-safety corollaries and the round trip                           *)
+(* ------------------------------------------------------------------------- *)
+
+Lemma decode_no_oob : forall s, bytes s -> decode s <> DOOB.
+Proof.
+  intros s _. rewrite decode_ref. destruct (refdec s); discriminate.
+Qed.
+
+Lemma decode_initialised : forall s buf n, bytes s -> decode s = DOk buf n ->
+  zlen buf = n + 1 /\ Forall is_Some buf /\ nth (Z.to_nat n) buf None = Some 0.
+Proof.
+  intros s buf n _ H. rewrite decode_ref in H. destruct (refdec s) as [v|]; [|discriminate H].
+  inversion H; subst buf n; clear H. repeat split.
+  - unfold zlen. rewrite map_length, app_length. cbn [length]. lia.
+  - apply Forall_forall. intros x Hx. apply in_map_iff in Hx. destruct Hx as (y & <- & _). exact I.
+  - unfold zlen. rewrite Nat2Z.id. rewrite map_app. rewrite app_nth2; rewrite map_length; [|lia].
+    rewrite Nat.sub_diag. reflexivity.
+Qed.
+
+Example decode_initialised_ex :
+  bytes [84; 87; 70; 117; 65; 80; 56; 61] /\
+  decode [84; 87; 70; 117; 65; 80; 56; 61] =
+    DOk [Some 77; Some 97; Some 110; Some 0; Some 255; Some 0] 5.
+Proof. split; [repeat constructor; unfold is_byte; lia | vm_compute; reflexivity]. Qed.
+
+Lemma inv_chr : forall v, 0 <= v < 64 -> inv (chr v) = v.
+Proof. intros v Hv. apply chr_facts. assumption. Qed.
+
+Lemma al_chr : forall v, 0 <= v < 64 -> al (chr v) = true.
+Proof. intros v Hv. unfold al. rewrite (inv_chr v Hv). lia. Qed.
+
+Lemma inv_PAD : inv PAD = 64.
+Proof. vm_compute. reflexivity. Qed.
+
+Lemma al_PAD : al PAD = false.
+Proof. vm_compute. reflexivity. Qed.
+
+Lemma enc3_dec3 : forall a b c, 0 <= a < 256 -> 0 <= b < 256 -> 0 <= c < 256 ->
+  forall v0 v1 v2 v3,
+  v0 = (a * 65536 + b * 256 + c) / 262144 mod 64 ->
+  v1 = (a * 65536 + b * 256 + c) / 4096 mod 64 ->
+  v2 = (a * 65536 + b * 256 + c) / 64 mod 64 ->
+  v3 = (a * 65536 + b * 256 + c) mod 64 ->
+  al4 (chr v0) (chr v1) (chr v2) (chr v3) = true /\
+  dec3 (chr v0) (chr v1) (chr v2) (chr v3) = [a; b; c].
+Proof.
+  intros a b c Ha Hb Hc v0 v1 v2 v3 E0 E1 E2 E3.
+  assert (R0 : 0 <= v0 < 64) by lia. assert (R1 : 0 <= v1 < 64) by lia.
+  assert (R2 : 0 <= v2 < 64) by lia. assert (R3 : 0 <= v3 < 64) by lia.
+  split.
+  - unfold al4. rewrite !al_chr by assumption. reflexivity.
+  - unfold dec3. rewrite !inv_chr by assumption.
+    repeat (f_equal; try lia).
+Qed.
+
+Lemma encode_nonempty : forall x l, encode (x :: l) <> [].
+Proof. intros x [|y [|z l]]; discriminate. Qed.
+
+Lemma refdec_encode : forall bs, bytes bs -> bs <> [] -> refdec (encode bs) = Some bs.
+Proof.
+  intro bs. pattern bs. apply list_ind3; clear bs.
+  - intros _ H. exfalso. apply H. reflexivity.
+  - intros a Hb _. apply bytes_cons in Hb. destruct Hb as [Ha _]. unfold is_byte in Ha.
+    cbn [encode refdec]. unfold qlast.
+    rewrite !al_chr by lia. rewrite al_PAD, inv_PAD. rewrite !inv_chr by lia.
+    cbn [andb]. change (64 =? 64) with true. cbn [andb].
+    repeat (f_equal; try lia).
+  - intros a b Hb _. apply bytes_cons in Hb. destruct Hb as [Ha Hb].
+    apply bytes_cons in Hb. destruct Hb as [Hb _]. unfold is_byte in Ha, Hb.
+    cbn [encode refdec]. unfold qlast.
+    rewrite !al_chr by lia. rewrite al_PAD, inv_PAD. rewrite !inv_chr by lia.
+    cbn [andb]. change (64 =? 64) with true. cbv iota.
+    repeat (f_equal; try lia).
+  - intros a b c l IH Hb _. apply bytes_cons in Hb. destruct Hb as [Ha Hb].
+    apply bytes_cons in Hb. destruct Hb as [Hb Hc].
+    apply bytes_cons in Hc. destruct Hc as [Hc Hl]. unfold is_byte in Ha, Hb, Hc.
+    rewrite encode_3.
+    destruct (enc3_dec3 a b c Ha Hb Hc _ _ _ _ eq_refl eq_refl eq_refl eq_refl) as [H4 H3].
+    destruct l as [|x l].
+    + cbn [encode refdec]. unfold qlast. unfold al4 in H4.
+      apply andb_prop in H4; destruct H4 as [H4 A3].
+      apply andb_prop in H4; destruct H4 as [H4 A2].
+      apply andb_prop in H4; destruct H4 as [A0 A1].
+      rewrite A0, A1, A2, A3. cbn [andb]. rewrite H3. reflexivity.
+    + destruct (encode (x :: l)) as [|y r] eqn:E.
+      { exfalso. exact (encode_nonempty x l E). }
+      rewrite refdec_cons, H4, H3. rewrite IH; [reflexivity | assumption | discriminate].
+Qed.
+
+Lemma roundtrip : forall bs, bytes bs -> bs <> [] ->
+  decode_bin (encode bs) = DOk (map Some bs ++ [Some 0]) (zlen bs).
+Proof.
+  intros bs Hb Hne. unfold decode_bin. rewrite decode_ref. rewrite (refdec_encode bs Hb Hne).
+  rewrite map_app. reflexivity.
+Qed.
+
+Example roundtrip_ex :
+  bytes [0; 255; 16; 32] /\ [0; 255; 16; 32] <> [] /\
+  decode_bin (encode [0; 255; 16; 32]) = DOk [Some 0; Some 255; Some 16; Some 32; Some 0] 4.
+Proof.
+  split; [repeat constructor; unfold is_byte; lia|]. split; [discriminate | vm_compute; reflexivity].
+Qed.
+
+Example decode_no_oob_ex : bytes [65; 61; 61; 61] /\ decode [65; 61; 61; 61] = DReject.
+Proof. split; [repeat constructor; unfold is_byte; lia | vm_compute; reflexivity]. Qed.
+
+(* ------------------------------------------------------------------------- *)
+(* 8. The reference decoder is the RFC one                                   *)
+(* ------------------------------------------------------------------------- *)
+
+Definition F (c : Z) : list Z := match sextet_of c with Some v => bits6 v | None => [] end.
+Definition octs (l : list Z) : list Z := take_octets (length l) l.
+
+Lemma spec_decode_eq : forall s, spec_decode s = octs (flat_map F (fst (strip_pad s))).
+Proof. intro s. unfold spec_decode, octs. destruct (strip_pad s); reflexivity. Qed.
+
+Lemma valid_b64_eq : forall s,
+  valid_b64 s = negb (Nat.eqb (length s) 0) && Nat.eqb (length s mod 4) 0 &&
+                forallb is_alpha (fst (strip_pad s)).
+Proof. intro s. unfold valid_b64. destruct (strip_pad s); reflexivity. Qed.
+
+Lemma strip_pad_app : forall pre c0 c1 c2 c3,
+  strip_pad (pre ++ [c0; c1; c2; c3]) =
+  if c3 =? spec_pad then
+    if c2 =? spec_pad then (pre ++ [c0; c1], 2%nat) else (pre ++ [c0; c1; c2], 1%nat)
+  else (pre ++ [c0; c1; c2; c3], 0%nat).
+Proof.
+  intros. unfold strip_pad. rewrite rev_app_distr. cbn [rev app].
+  destruct (c3 =? spec_pad); [|reflexivity].
+  destruct (c2 =? spec_pad); rewrite rev_involutive, <- !app_assoc; reflexivity.
+Qed.
+
+Lemma take_octets_fuel : forall f g l, (length l <= f)%nat -> (length l <= g)%nat ->
+  take_octets f l = take_octets g l.
+Proof.
+  induction f as [|f IH]; intros g l Hf Hg.
+  - destruct l; [|simpl in Hf; lia]. destruct g; reflexivity.
+  - destruct g as [|g].
+    + destruct l; [reflexivity | simpl in Hg; lia].
+    + cbn [take_octets]. destruct (Nat.leb 8 (length l)) eqn:E; [|reflexivity].
+      apply Nat.leb_le in E. f_equal. apply IH; rewrite skipn_length; lia.
+Qed.
+
+Lemma take_octets3 : forall f x1 x2 x3 x4 x5 x6 x7 x8 x9 x10 x11 x12 x13 x14 x15 x16 x17 x18
+                            x19 x20 x21 x22 x23 x24 rest,
+  take_octets (S (S (S f)))
+    (x1 :: x2 :: x3 :: x4 :: x5 :: x6 :: x7 :: x8 :: x9 :: x10 :: x11 :: x12 :: x13 :: x14 ::
+     x15 :: x16 :: x17 :: x18 :: x19 :: x20 :: x21 :: x22 :: x23 :: x24 :: rest) =
+  bval [x1; x2; x3; x4; x5; x6; x7; x8] :: bval [x9; x10; x11; x12; x13; x14; x15; x16] ::
+  bval [x17; x18; x19; x20; x21; x22; x23; x24] :: take_octets f rest.
+Proof. reflexivity. Qed.
+
+Section Octets.
+  Variables h0 h1 h2 h3 : Z.
+  Hypothesis R0 : 0 <= h0 < 64.
+  Hypothesis R1 : 0 <= h1 < 64.
+  Hypothesis R2 : 0 <= h2 < 64.
+  Hypothesis R3 : 0 <= h3 < 64.
+
+  Lemma d_o0 : bval [h0 / 32 mod 2; h0 / 16 mod 2; h0 / 8 mod 2; h0 / 4 mod 2; h0 / 2 mod 2;
+                     h0 mod 2; h1 / 32 mod 2; h1 / 16 mod 2] =
+               (h0 * 262144 + h1 * 4096 + h2 * 64 + h3) / 65536 mod 256.
+  Proof. bv. lia. Qed.
+  Lemma d_o1 : bval [h1 / 8 mod 2; h1 / 4 mod 2; h1 / 2 mod 2; h1 mod 2; h2 / 32 mod 2;
+                     h2 / 16 mod 2; h2 / 8 mod 2; h2 / 4 mod 2] =
+               (h0 * 262144 + h1 * 4096 + h2 * 64 + h3) / 256 mod 256.
+  Proof. bv. lia. Qed.
+  Lemma d_o2 : bval [h2 / 2 mod 2; h2 mod 2; h3 / 32 mod 2; h3 / 16 mod 2; h3 / 8 mod 2;
+                     h3 / 4 mod 2; h3 / 2 mod 2; h3 mod 2] =
+               (h0 * 262144 + h1 * 4096 + h2 * 64 + h3) mod 256.
+  Proof. bv. lia. Qed.
+End Octets.
+
+Section Octets3.
+  Variables h0 h1 h2 : Z.
+  Hypothesis R0 : 0 <= h0 < 64.
+  Hypothesis R1 : 0 <= h1 < 64.
+  Hypothesis R2 : 0 <= h2 < 64.
+  Lemma d_p0 : bval [h0 / 32 mod 2; h0 / 16 mod 2; h0 / 8 mod 2; h0 / 4 mod 2; h0 / 2 mod 2;
+                     h0 mod 2; h1 / 32 mod 2; h1 / 16 mod 2] =
+               (h0 * 1024 + h1 * 16 + h2 / 4) / 256 mod 256.
+  Proof. bv. lia. Qed.
+  Lemma d_p1 : bval [h1 / 8 mod 2; h1 / 4 mod 2; h1 / 2 mod 2; h1 mod 2; h2 / 32 mod 2;
+                     h2 / 16 mod 2; h2 / 8 mod 2; h2 / 4 mod 2] =
+               (h0 * 1024 + h1 * 16 + h2 / 4) mod 256.
+  Proof. bv. lia. Qed.
+End Octets3.
+
+Lemma d_q0 : forall h0 h1, 0 <= h0 < 64 -> 0 <= h1 < 64 ->
+  bval [h0 / 32 mod 2; h0 / 16 mod 2; h0 / 8 mod 2; h0 / 4 mod 2; h0 / 2 mod 2;
+        h0 mod 2; h1 / 32 mod 2; h1 / 16 mod 2] = (h0 * 4 + h1 / 16) mod 256.
+Proof. intros h0 h1 R0 R1. bv. lia. Qed.
+
+Lemma F_al : forall c, is_byte c -> al c = true -> F c = bits6 (inv c).
+Proof. intros c Hc Ha. unfold F. rewrite (sextet_of_inv c Hc), Ha. reflexivity. Qed.
+
+Lemma al_range : forall c, is_byte c -> al c = true -> 0 <= inv c < 64.
+Proof. intros c Hc Ha. pose proof (inv_range c Hc). unfold al in Ha. lia. Qed.
+
+Lemma octs_24 : forall h0 h1 h2 h3 r,
+  0 <= h0 < 64 -> 0 <= h1 < 64 -> 0 <= h2 < 64 -> 0 <= h3 < 64 ->
+  octs (bits6 h0 ++ bits6 h1 ++ bits6 h2 ++ bits6 h3 ++ r) =
+  [(h0 * 262144 + h1 * 4096 + h2 * 64 + h3) / 65536 mod 256;
+   (h0 * 262144 + h1 * 4096 + h2 * 64 + h3) / 256 mod 256;
+   (h0 * 262144 + h1 * 4096 + h2 * 64 + h3) mod 256] ++ octs r.
+Proof.
+  intros h0 h1 h2 h3 r R0 R1 R2 R3. unfold bits6. cbn [app]. unfold octs. cbn [length].
+  rewrite take_octets3. rewrite (take_octets_fuel _ (length r) r) by lia.
+  rewrite (d_o0 h0 h1 h2 h3), (d_o1 h0 h1 h2 h3), (d_o2 h0 h1 h2 h3) by assumption.
+  reflexivity.
+Qed.
+
+Lemma octs_18 : forall h0 h1 h2, 0 <= h0 < 64 -> 0 <= h1 < 64 -> 0 <= h2 < 64 ->
+  octs (bits6 h0 ++ bits6 h1 ++ bits6 h2 ++ []) =
+  [(h0 * 1024 + h1 * 16 + h2 / 4) / 256 mod 256; (h0 * 1024 + h1 * 16 + h2 / 4) mod 256].
+Proof.
+  intros h0 h1 h2 R0 R1 R2.
+  cbv [octs bits6 app length take_octets Nat.leb firstn skipn].
+  rewrite (d_p0 h0 h1 h2), (d_p1 h0 h1 h2) by assumption. reflexivity.
+Qed.
+
+Lemma octs_12 : forall h0 h1, 0 <= h0 < 64 -> 0 <= h1 < 64 ->
+  octs (bits6 h0 ++ bits6 h1 ++ []) = [(h0 * 4 + h1 / 16) mod 256].
+Proof.
+  intros h0 h1 R0 R1.
+  cbv [octs bits6 app length take_octets Nat.leb firstn skipn].
+  rewrite (d_q0 h0 h1) by assumption. reflexivity.
+Qed.
+
+Lemma octs_pre : forall (k : nat) pre, length pre = (4 * k)%nat -> bytes pre ->
+  forallb al pre = true ->
+  forall rest, octs (flat_map F pre ++ rest) = decq pre ++ octs rest.
+Proof.
+  induction k as [|k IH]; intros pre H Hb Hal rest.
+  - destruct pre; [reflexivity | simpl in H; lia].
+  - destruct (quartets_inv k pre H) as (a & b & c & d & pre' & -> & H').
+    apply bytes_cons in Hb. destruct Hb as [Ba Hb].
+    apply bytes_cons in Hb. destruct Hb as [Bb Hb].
+    apply bytes_cons in Hb. destruct Hb as [Bc Hb].
+    apply bytes_cons in Hb. destruct Hb as [Bd Hb].
+    rewrite forallb_al4 in Hal. apply andb_prop in Hal. destruct Hal as [H4 Hal].
+    unfold al4 in H4.
+    apply andb_prop in H4; destruct H4 as [H4 A3].
+    apply andb_prop in H4; destruct H4 as [H4 A2].
+    apply andb_prop in H4; destruct H4 as [A0 A1].
+    cbn [flat_map decq]. rewrite !F_al by assumption. rewrite <- !app_assoc.
+    rewrite octs_24 by (apply al_range; assumption).
+    rewrite (IH pre' H' Hb Hal rest). reflexivity.
+Qed.
+
+Lemma forallb_alpha_bytes : forall l, bytes l -> forallb is_alpha l = forallb al l.
+Proof.
+  induction l as [|c l IH]; intro Hb; [reflexivity|].
+  apply bytes_cons in Hb. destruct Hb as [Hc Hb]. cbn [forallb].
+  rewrite (is_alpha_al c Hc), (IH Hb). reflexivity.
+Qed.
+
+Lemma spec_ref : forall s, bytes s ->
+  match refdec s with
+  | Some v => valid_b64 s = true /\ spec_decode s = v
+  | None => valid_b64 s = false
+  end.
+Proof.
+  intros s Hb.
+  destruct (quartet_decomp s) as [-> | [Hbad | (k & pre & c0 & c1 & c2 & c3 & -> & H)]].
+  - reflexivity.
+  - rewrite (refdec_badlen s Hbad). rewrite valid_b64_eq. apply Nat.eqb_neq in Hbad.
+    rewrite Hbad. rewrite andb_false_r. reflexivity.
+  - rewrite (refdec_app k pre c0 c1 c2 c3 H). rewrite valid_b64_eq, spec_decode_eq, strip_pad_app.
+    assert (L : length (pre ++ [c0; c1; c2; c3]) = (S k * 4)%nat).
+    { rewrite app_length. cbn [length]. lia. }
+    rewrite L. rewrite Nat.mod_mul by lia.
+    change (Nat.eqb (S k * 4) 0) with false. change (Nat.eqb 0 0) with true. cbn [negb andb].
+    apply Forall_app in Hb. destruct Hb as [Hpre Hb].
+    apply bytes_cons in Hb. destruct Hb as [B0 Hb].
+    apply bytes_cons in Hb. destruct Hb as [B1 Hb].
+    apply bytes_cons in Hb. destruct Hb as [B2 Hb].
+    apply bytes_cons in Hb. destruct Hb as [B3 _].
+    rewrite <- (inv_pad c3 B3), <- (inv_pad c2 B2).
+    pose proof (forallb_alpha_bytes pre Hpre) as Epre.
+    unfold qlast.
+    destruct (inv c3 =? 64) eqn:P3; [destruct (inv c2 =? 64) eqn:P2|]; cbn [fst];
+      rewrite forallb_app, flat_map_app, Epre; cbn [forallb flat_map];
+      rewrite ?(is_alpha_al c0 B0), ?(is_alpha_al c1 B1), ?(is_alpha_al c2 B2),
+              ?(is_alpha_al c3 B3);
+      (destruct (forallb al pre) eqn:Hal; cbn [andb]; [|reflexivity]).
+    + (* xx== *)
+      assert (A2 : al c2 = false) by (unfold al; lia). rewrite A2.
+      destruct (al c0) eqn:A0; [|reflexivity].
+      destruct (al c1) eqn:A1; [|reflexivity].
+      cbn [andb option_map]. split; [reflexivity|].
+      rewrite (octs_pre k pre H Hpre Hal). rewrite !F_al by assumption.
+      rewrite octs_12 by (apply al_range; assumption). reflexivity.
+    + (* xxx= *)
+      assert (A3 : al c3 = false) by (unfold al; lia). rewrite A3.
+      destruct (al c0) eqn:A0; [|reflexivity].
+      destruct (al c1) eqn:A1; [|reflexivity].
+      destruct (al c2) eqn:A2; [|reflexivity].
+      cbn [andb option_map]. split; [reflexivity|].
+      rewrite (octs_pre k pre H Hpre Hal). rewrite !F_al by assumption.
+      rewrite octs_18 by (apply al_range; assumption). reflexivity.
+    + (* xxxx *)
+      rewrite andb_false_r.
+      destruct (al c0) eqn:A0; [|reflexivity].
+      destruct (al c1) eqn:A1; [|reflexivity].
+      destruct (al c2) eqn:A2; [|reflexivity].
+      destruct (al c3) eqn:A3; [|reflexivity].
+      cbn [andb option_map]. split; [reflexivity|].
+      rewrite (octs_pre k pre H Hpre Hal). rewrite !F_al by assumption.
+      rewrite octs_24 by (apply al_range; assumption). reflexivity.
+Qed.
+
+(* ------------------------------------------------------------------------- *)
+(* 9. Exactness of decode_bin and decode_str                                 *)
+(* ------------------------------------------------------------------------- *)
+
+Lemma cells_prefix_map : forall v r, cells_prefix (map Some v ++ r) (length v) = Some v.
+Proof.
+  induction v as [|a v IH]; intro r; [destruct r; reflexivity|].
+  cbn [map app length cells_prefix]. rewrite IH. reflexivity.
+Qed.
+
+Lemma cells_prefix_value : forall v,
+  cells_prefix (map Some (v ++ [0])) (Z.to_nat (zlen v)) = Some v.
+Proof.
+  intro v. unfold zlen. rewrite Nat2Z.id, map_app. apply cells_prefix_map.
+Qed.
+
+Lemma decode_exact : forall s, bytes s ->
+  (valid_b64 s = true ->
+     exists buf, decode_bin s = DOk buf (zlen (spec_decode s)) /\
+                 decode_bin_value s = Some (spec_decode s)) /\
+  (valid_b64 s = false -> decode_bin s = DReject).
+Proof.
+  intros s Hb. pose proof (spec_ref s Hb) as R.
+  unfold decode_bin, decode_bin_value. rewrite decode_ref.
+  destruct (refdec s) as [v|].
+  - destruct R as [Hv <-]. split.
+    + intros _. exists (map Some (spec_decode s ++ [0])). split; [reflexivity|].
+      apply cells_prefix_value.
+    + intro Hf. rewrite Hf in Hv. discriminate Hv.
+  - split.
+    + intro Ht. rewrite Ht in R. discriminate R.
+    + intros _. reflexivity.
+Qed.
+
+Example decode_exact_ex :
+  bytes [84; 87; 70; 117; 65; 80; 56; 61] /\ valid_b64 [84; 87; 70; 117; 65; 80; 56; 61] = true /\
+  spec_decode [84; 87; 70; 117; 65; 80; 56; 61] = [77; 97; 110; 0; 255] /\
+  bytes [84; 87; 61; 117] /\ valid_b64 [84; 87; 61; 117] = false.
+Proof.
+  repeat split; try (vm_compute; reflexivity); repeat constructor; unfold is_byte; lia.
+Qed.
+
+Lemma zlen_cons : forall (A : Type) (a : A) l, zlen (a :: l) = zlen l + 1.
+Proof. intros. unfold zlen. cbn [length]. lia. Qed.
+
+Lemma cstrlen_value : forall v, exists k,
+  cstrlen (map Some (v ++ [0])) = Some k /\ 0 <= k <= zlen v /\
+  (k =? zlen v) = negb (existsb (Z.eqb 0) v).
+Proof.
+  induction v as [|a v IH].
+  - exists 0. repeat split; reflexivity || (unfold zlen; cbn [length]; lia).
+  - destruct IH as (k & E & R & B). rewrite zlen_cons. cbn [app map existsb].
+    destruct a as [|p|p].
+    + exists 0. cbn [cstrlen]. split; [reflexivity|]. split; [lia|].
+      change (0 =? 0) with true. cbn [orb negb]. lia.
+    + exists (k + 1). cbn [cstrlen]. rewrite E. split; [reflexivity|]. split; [lia|].
+      change (0 =? Z.pos p) with false. cbn [orb]. rewrite <- B. lia.
+    + exists (k + 1). cbn [cstrlen]. rewrite E. split; [reflexivity|]. split; [lia|].
+      change (0 =? Z.neg p) with false. cbn [orb]. rewrite <- B. lia.
+Qed.
+
+Lemma str_exact : forall s, bytes s ->
+  decode_str s =
+    if zlen s =? 0 then SOk []
+    else if valid_b64 s && negb (existsb (Z.eqb 0) (spec_decode s)) then SOk (spec_decode s)
+    else SNull.
+Proof.
+  intros s Hb. unfold decode_str. destruct (zlen s =? 0); [reflexivity|].
+  pose proof (spec_ref s Hb) as R. rewrite decode_ref.
+  destruct (refdec s) as [v|].
+  - destruct R as [-> <-]. cbn [andb].
+    destruct (cstrlen_value (spec_decode s)) as (k & E & _ & B). rewrite E, B.
+    destruct (existsb (Z.eqb 0) (spec_decode s)); cbn [negb]; [reflexivity|].
+    rewrite cells_prefix_value. reflexivity.
+  - rewrite R. reflexivity.
+Qed.
+
+Example str_exact_ex :
+  bytes [84; 87; 70; 117] /\ decode_str [84; 87; 70; 117] = SOk [77; 97; 110] /\
+  bytes [84; 87; 70; 117; 65; 80; 56; 61] /\ decode_str [84; 87; 70; 117; 65; 80; 56; 61] = SNull.
+Proof.
+  repeat split; try (vm_compute; reflexivity); repeat constructor; unfold is_byte; lia.
+Qed.
+
+Print Assumptions Gen_b64_ok.
+Print Assumptions encode_canonical.
+Print Assumptions roundtrip.
+Print Assumptions decode_exact.
+Print Assumptions decode_initialised.
+Print Assumptions decode_no_oob.
+Print Assumptions str_exact.
